@@ -127,15 +127,57 @@ fn inputs<'a>(v: &'a Vector, p: Proto) -> Vec<(&'static str, &'a [u8])> {
 const SKIP_BUDGET: u64 = 64;
 const TRAILER: [u8; 5] = [0x5a, 0xee, 0x77, 0x01, 0x02];
 
-fn run_vectors(path: &str, out: &str) {
+// Crash tolerance: the code under test may abort the process (an unsafe-precondition check, a stack overflow).  Every
+// vector is announced with a `start` row and closed with a `done` row, both flushed; after a crash the caller records
+// the vector in progress as a mismatch and restarts behind it (`start` > 0): the rows already written are read back
+// to restore the counters and the list of vectors that were fine on their own.
+static VSTAGE: std::sync::atomic::AtomicUsize = std::sync::atomic::AtomicUsize::new(0);
+const VSTAGES: [&str; 5] = ["-", "enc", "dec", "adec", "skip"];
+fn vstage(stage: usize, p: Proto) {
+    VSTAGE.store(stage * 8 + Proto::ALL.iter().position(|q| *q == p).unwrap_or(7), std::sync::atomic::Ordering::SeqCst);
+}
+
+fn run_vectors(path: &str, out: &str, start: usize) {
     let vs = load(path);
-    let mut r = Report { out: Box::new(std::io::BufWriter::new(std::fs::File::create(out).unwrap())), evals: 0, mism: 0 };
+    // a panic that cannot unwind aborts the process: say which stage of which protocol was running
+    let prev = std::panic::take_hook();
+    std::panic::set_hook(Box::new(move |info| {
+        let s = VSTAGE.load(std::sync::atomic::Ordering::SeqCst);
+        eprintln!("VSTAGE stage={} proto={}", VSTAGES[(s / 8).min(4)], Proto::ALL.get(s % 8).map_or("-", |p| p.name()));
+        prev(info)
+    }));
     let mut good: Vec<usize> = Vec::new();
     let mut zc_nodes = 0usize;
+    let (mut evals0, mut mism0) = (0u64, 0u64);
+    if start > 0 {
+        for l in std::fs::read_to_string(out).unwrap().lines() {
+            let Ok(j) = serde_json::from_str::<Value>(l) else { continue };
+            match j["kind"].as_str() {
+                Some("done") => {
+                    evals0 += j["evals"].as_u64().unwrap();
+                    zc_nodes += j["zc"].as_u64().unwrap() as usize;
+                    if j["good"].as_bool().unwrap() {
+                        good.push(j["vi"].as_u64().unwrap() as usize);
+                    }
+                }
+                Some("mismatch") => mism0 += 1,
+                _ => {}
+            }
+        }
+    }
+    let f = std::fs::OpenOptions::new().create(true).write(true).append(start > 0).truncate(start == 0).open(out).unwrap();
+    let mut r = Report { out: Box::new(std::io::BufWriter::new(f)), evals: evals0, mism: mism0 };
     for (vi, v) in vs.iter().enumerate() {
+        if vi < start {
+            continue;
+        }
         let before = r.mism;
+        let (evals_before, zc_before) = (r.evals, zc_nodes);
+        writeln!(r.out, "{}", json!({"kind":"start","vi":vi,"vec":v.id})).unwrap();
+        r.out.flush().unwrap();
         for p in Proto::ALL {
             let exp = expected(v, p);
+            vstage(1, p);
             // a value with a large payload goes through every API variant (zero-copy capable or not)
             let offsets: &[usize] = if v.bin.len() > 3000 { &[0, 1] } else { &[0] };
             for (k, off) in BufKind::ALL.iter().flat_map(|k| offsets.iter().map(move |o| (*k, *o))) {
@@ -169,6 +211,7 @@ fn run_vectors(path: &str, out: &str) {
                 let mut input = enc.to_vec();
                 input.extend_from_slice(&TRAILER);
                 let pn = p.name();
+                vstage(2, p);
                 let d = decode_seq(p, &input, &[v.t, 3], false);
                 if let Some(err) = &d.err {
                     r.bad(v.id, pn, form, "dec-err", json!(err));
@@ -188,6 +231,7 @@ fn run_vectors(path: &str, out: &str) {
                 // Pending before every byte
                 if p != Proto::Unsafe {
                     use vh::aio::Sched;
+                    vstage(3, p);
                     let scheds: [(&str, Vec<Sched>, usize); 2] = [
                         ("whole", vec![], 1 << 20),
                         ("bytewise+pending", (0..input.len() * 2).map(|i| if i % 2 == 0 { Sched::Pending } else { Sched::Deliver(1) }).collect(), 1),
@@ -212,6 +256,7 @@ fn run_vectors(path: &str, out: &str) {
                     }
                 }
                 // skip
+                vstage(4, p);
                 if p == Proto::Unsafe {
                     let mut f = vec![v.t, 0, 1];
                     f.extend_from_slice(&input);
@@ -241,7 +286,11 @@ fn run_vectors(path: &str, out: &str) {
         if r.mism == before {
             good.push(vi);
         }
+        writeln!(r.out, "{}", json!({"kind":"done","vi":vi,"good":r.mism == before,"evals":r.evals - evals_before,"zc":zc_nodes - zc_before})).unwrap();
+        r.out.flush().unwrap();
     }
+    writeln!(r.out, "{}", json!({"kind":"start","vi":"seq"})).unwrap();
+    r.out.flush().unwrap();
     // back-to-back: every vector that is fine on its own, written by ONE writer onto ONE buffer and
     // read back by ONE reader instance
     let trees: Vec<Tree> = good.iter().map(|i| vs[*i].v.clone()).collect();
@@ -1151,7 +1200,7 @@ fn main() {
     if std::env::var("VERIF_LOUD").is_err() { vh::quiet_panics(); }
     let a: Vec<String> = std::env::args().collect();
     match a.get(1).map(|s| s.as_str()) {
-        Some("vectors") => run_vectors(&a[2], &a[3]),
+        Some("vectors") => run_vectors(&a[2], &a[3], a.get(4).map_or(0, |x| x.parse().unwrap())),
         Some("walks") => walks::run(&a[2], &a[3]),
         Some("wire") => wire::run(&a[2], &a[3]),
         Some("async") => asyncmode::run(&a[2], &a[3], &a[4], a[5].parse().unwrap(), a.get(6).map_or(false, |x| x == "thorough")),
